@@ -142,11 +142,21 @@ func genC16(r *RNG, tier string) []Case {
 					if err != nil {
 						return "err"
 					}
+					// "per-event header sizes": the accessor must give, for EVERY announced type code (the last one included),
+					// the byte the master wrote for it
+					for typ := 1; typ <= len(f.HeaderSizes) && typ <= 255; typ++ {
+						if got := f.HeaderSize(byte(typ)); got != tbl[typ-1] {
+							return fmt.Sprintf("ok-but-HeaderSize(%d)=%d-master-wrote-%d", typ, got, tbl[typ-1])
+						}
+					}
 					return fmt.Sprintf("ok:%d,%s,%d,%d,%s", f.FormatVersion, hx([]byte(f.ServerVersion)), f.HeaderLength, f.ChecksumAlgorithm, hx(f.HeaderSizes))
 				})
 				o := Outcome{Impl: impl, Model: resp["model"], Spec: resp["spec"], CorrOK: impl == resp["model"], OracleOK: impl == "ok:"+resp["spec"]}
 				if !o.OracleOK {
 					o.Note = "format description does not decode to what the master wrote"
+					if strings.HasPrefix(impl, "ok-but-") {
+						o.Note = "header size accessor disagrees with the announced table: " + impl
+					}
 					o.FindingKey = "format"
 				}
 				return o
